@@ -15,7 +15,8 @@ MOD = 'sim.scen_c15'
 
 RETYPE_VALUES = [None, True, 0, -1, 7, 10 ** 6, 1.5, '', 'x', [], {}, [1],
                  {'a': 1}, 'l1\nl2 <br>\n"q\'&amp;',
-                 'C:\\dir \\emph{x} \\1 \\g<0> %s {0} $&']
+                 'C:\\dir \\emph{x} \\1 \\g<0> %s {0} $&',
+                 float('inf'), float('nan')]
 
 GARBAGE = [
     b'', b' \n\t ', b'null', b'[]', b'42', b'"matches"', b'{}',
